@@ -1,7 +1,11 @@
 package simrt
 
 import (
+	"errors"
+	"fmt"
 	"math/rand"
+	"reflect"
+	"strings"
 	"sync"
 	"time"
 )
@@ -26,6 +30,7 @@ func SetClock(startUnix int64, rngSeed int64) {
 	clockBase = time.Unix(startUnix, 0)
 	clockOff = 0
 	simRand = rand.New(rand.NewSource(rngSeed))
+	SetAddressBase(uint64(startUnix) ^ uint64(rngSeed))
 }
 
 // ClockStats returns how often the clock and the RNG were read (cumulative).
@@ -118,4 +123,73 @@ func RandRead(p []byte) (int, error) {
 	defer clockMu.Unlock()
 	nRand++
 	return simRand.Read(p)
+}
+
+// ---------------------------------------------------------------- addresses in text
+
+// Sprintf is what fmt.Sprintf / fmt.Errorf calls with a %p verb are rewritten to. Memory
+// addresses are a source of nondeterminism like any other: code that turns a pointer into text
+// (the schema library names unnamed types "#%p") gets a stand-in address that is the same for the
+// same pointer within one run, is handed out in the order of first use (deterministic), and
+// depends on the environment of the run (so that text which leaks into a result still differs
+// between two environments, as real addresses would).
+func Sprintf(format string, a ...interface{}) string {
+	out := fmt.Sprintf(format, a...)
+	if !Active {
+		return out
+	}
+	for _, x := range a {
+		v := reflect.ValueOf(x)
+		switch v.Kind() {
+		case reflect.Ptr, reflect.UnsafePointer, reflect.Map, reflect.Chan, reflect.Func, reflect.Slice:
+			if v.Pointer() == 0 {
+				continue
+			}
+			real := fmt.Sprintf("%p", x)
+			if strings.Contains(out, real) {
+				out = strings.ReplaceAll(out, real, fakeAddr(v.Pointer()))
+			}
+		}
+	}
+	return out
+}
+
+// Errorf is fmt.Errorf with the same treatment of %p (no %w support is needed for that).
+func Errorf(format string, a ...interface{}) error {
+	if !Active {
+		return fmt.Errorf(format, a...)
+	}
+	return errors.New(Sprintf(strings.ReplaceAll(format, "%w", "%v"), a...))
+}
+
+const maxFakeAddrs = 1 << 16
+
+var (
+	fakeKeys [maxFakeAddrs]uintptr
+	fakeN    int
+	fakeBase uint64 = 0xc000100000
+)
+
+// SetAddressBase sets the base of the stand-in addresses of the run.
+//
+//go:norace
+func SetAddressBase(b uint64) { fakeBase = 0xc000000000 + (b%0xffff)*0x10000; fakeN = 0 }
+
+//go:norace
+func fakeOrdinal(p uintptr) int {
+	for i := 0; i < fakeN; i++ {
+		if fakeKeys[i] == p {
+			return i
+		}
+	}
+	if fakeN < maxFakeAddrs {
+		fakeKeys[fakeN] = p
+		fakeN++
+		return fakeN - 1
+	}
+	return maxFakeAddrs
+}
+
+func fakeAddr(p uintptr) string {
+	return fmt.Sprintf("0x%x", fakeBase+uint64(fakeOrdinal(p))*0x40)
 }
